@@ -24,7 +24,9 @@ Reading of an assignment `x : Vec`: on `x (r.core.layout.on t)`, start flag `x (
 (c) `convertRamp`: `convert_ramp_identity`, `ramp_freq_none_is_not_identity`, `convert_ramp_coarse`,
     `convert_ramp_coarse_int`, `convert_ramp_coarse_volume`, `convert_ramp_coarse_volume_preserved`,
     `convert_ramp_fine`, `convert_ramp_fine_first`, `convert_ramp_fine_linear`, `convert_ramp_fine_last`,
-    `convert_ramp_fine_volume_not_preserved`, `profile_on_grid_identity`.
+    `convert_ramp_fine_volume_not_preserved`, `profile_on_grid_identity`, `convert_ramp_monotone`,
+    `profiles_ordered_on_grid`.
+(d) ramp rows with any number of flags: `ramp_rows_general`, `ramp_first_lower_general`.
 -/
 namespace EAO.C06P
 open EAO EAO.UC EAO.CHPCommit EAO.CHPProfCommit
@@ -122,7 +124,7 @@ theorem feasible_pattern_respects_spec (r : CHPRP) (hwf : CommitWFP r) (x : Vec)
 
 example : commitOKP CHPProfile.witnessShut = true := by decide +kernel
 
-/-- `11100` is admitted, a run of one step (`01000`) is not: the ramps alone need two steps -/
+/-- `11100` is accepted, a run of one step (`01000`) is not: the ramps alone need two steps -/
 example : CommitFeasibleP CHPProfile.witnessShut [true, true, true, false, false] ∧
     ¬ CommitFeasibleP CHPProfile.witnessShut [false, true, false, false, false] := by
   have hwf := wf_of_ok CHPProfile.witnessShut (by decide +kernel)
@@ -368,5 +370,57 @@ theorem profile_on_grid_identity (q : CHPProfP) (s d : List Rat × List Rat) (st
     (mkProf q s d stepSec unitSec).ql = (if d.1.isEmpty then [] else d.1.map (· * ((stepSec : Rat) / (unitSec : Rat)))) ∧
     (mkProf q s d stepSec unitSec).qu = (if d.1.isEmpty then [] else d.2.map (· * ((stepSec : Rat) / (unitSec : Rat)))) := by
   simp [mkProf, convert_ramp_identity _ stepSec q.rampFreqSec q.sameFreq h]
+
+/-- `_convert_ramp` is MONOTONE (all three branches, any ratio of the two frequencies): a pointwise smaller profile of the
+    same length converts to a pointwise smaller profile of the same length (`LeL` = entry-wise `≤` of equally long lists) -/
+theorem convert_ramp_monotone (lo up : List Rat) (h : LeL lo up) (stepSec rampSec : Nat) (hr : 0 < rampSec) (same : Bool) :
+    LeL (convertRamp lo stepSec rampSec same) (convertRamp up stepSec rampSec same) :=
+  convertRamp_mono lo up h stepSec rampSec hr same
+
+/-- … hence whatever `resolveCHPP` returns has profiles on the grid with `lower ≤ upper` entry by entry and equal lengths,
+    for the start and for the shutdown profile — the order the constructor asserts on the given values survives
+    interpolation / averaging and the factor step / unit -/
+theorem profiles_ordered_on_grid {p : CHPP} {q : CHPProfP} {base : AssetProblem} {g : Grid} {prices : Prices} {u s : Nat}
+    {costsOnly : Bool} {r : CHPRP} (h : resolveCHPP p q base g prices u s costsOnly = .ok (some r))
+    (hr : 0 < q.rampFreqSec) :
+    r.prof.sl.length = r.prof.su.length ∧ (∀ k, r.prof.sl.getD k 0 ≤ r.prof.su.getD k 0) ∧
+    r.prof.ql.length = r.prof.qu.length ∧ (∀ k, r.prof.ql.getD k 0 ≤ r.prof.qu.getD k 0) := by
+  obtain ⟨sd, hsd, hp⟩ := resolveCHPP_prof h
+  obtain ⟨h1, h2⟩ := mkProf_ordered q hsd hr s u
+  rw [hp]
+  exact ⟨h1.length_eq, h1.getD, h2.length_eq, h2.getD⟩
+
+example : LeL [1, 2] [2, 2] ∧ convertRamp [1, 2] 1800 3600 false = [1, 1, 3 / 2, 2] ∧
+    convertRamp [2, 2] 1800 3600 false = [2, 2, 2, 2] :=
+  ⟨.cons (by decide +kernel) (.cons (by decide +kernel) .nil), by decide +kernel, by decide +kernel⟩
+
+/-! ## (d) the ramp rows with ANY number of flags in their window (C06.lean (7) has the cases "no flag" and "exactly
+one flag": `ramp_steps_outside_ramps`, `CHPProfile.ramp_upper_in_start_ramp`, `ramp_lower_in_shutdown_ramp`) -/
+
+/-- steps `t ≥ 1`: every start flag the upper row sees (`startsSeen = Σ_{i<S, i≤t} start_{t−i}`) relaxes it by
+    `max_cap_t − ramp`, every shutdown flag the lower row sees (`shutsSeen = Σ_{i<Q, t+i<T} shut_{t+i}`) by
+    `max_cap_{t−1} − ramp` -/
+theorem ramp_rows_general (r : CHPRP) (x : Vec) (hx : (assembleCHPP r).FeasibleRelaxed x) (hon : r.core.incOn = true)
+    (ρ : Rat) (hρ : r.core.ramp = some ρ) (t : Nat) (h1 : 1 ≤ t) (ht : t < r.core.T) :
+    r.core.vd x t ≤ r.core.vd x (t - 1) + ρ * x (r.core.layout.on t) + (r.core.maxCap t - ρ) * startsSeen r x t ∧
+    r.core.vd x (t - 1) - ρ * x (r.core.layout.on (t - 1)) - (r.core.maxCap (t - 1) - ρ) * shutsSeen r x t ≤
+      r.core.vd x t :=
+  CHPProfCommit.ramp_rows_general r x hx hon ρ hρ t h1 ht
+
+/-- first step, lower side: every shutdown flag among the first `Q` steps lifts the comparison with `last_dispatch`
+    (observation P-3: `v_0 ≥ last − ramp − (last − ramp)·Σ_{i<Q} shut_i` when already running) -/
+theorem ramp_first_lower_general (r : CHPRP) (x : Vec) (hx : (assembleCHPP r).FeasibleRelaxed x)
+    (ρ : Rat) (hρ : r.core.ramp = some ρ) :
+    (if r.core.tar = 0 then r.core.last else r.core.last - ρ) -
+        (r.core.last - ρ) * ((List.range r.prof.Q).map fun i => x (r.shut i)).sum ≤ r.core.vd x 0 :=
+  CHPProfCommit.ramp_first_lower_general r x hx ρ hρ
+
+/-- non-vacuity: `Plant(min 3, max 10, ramp 1, start ramp [1/2,1]…[1,2])` started at step 0 with dispatch `1, 2, 3` is
+    feasible (`1, 2, 5` is not); at step 1 the upper row sees the start flag of step 0 -/
+example : witnessRamp.core.vd xRamp 1 ≤ witnessRamp.core.vd xRamp 0 + 1 * xRamp (witnessRamp.core.layout.on 1) +
+      (witnessRamp.core.maxCap 1 - 1) * startsSeen witnessRamp xRamp 1 ∧ startsSeen witnessRamp xRamp 1 = 1 ∧
+    ¬ (assembleCHPP witnessRamp).FeasibleRelaxed (fun j => [1, 2, 5, 1, 1, 1, 1, 0, 0, 0, 0, 0].getD j 0) :=
+  ⟨(ramp_rows_general witnessRamp xRamp witnessRamp_feasible rfl 1 rfl 1 (by decide) (by decide)).1,
+   by decide +kernel, witnessRamp_binds⟩
 
 end EAO.C06P
